@@ -9,6 +9,7 @@ import (
 	"fmt"
 	"html"
 	"reflect"
+	"sort"
 	"strings"
 	"text/template"
 	"text/template/parse"
@@ -559,7 +560,7 @@ func (e *escaper) escapeTemplate(c context, n *parse.TemplateNode) context {
 func mangle(c context, templateName string) string {
 	// The mangled name for the default context is the input templateName.
 	if c.state == stateText {
-		if _, err := sanitizerForElementContent(c); err == nil {
+		if _, err := sanitizerForElementContent(c); err == nil && !c.element.continued {
 			return templateName
 		}
 		// Actions are not allowed in the content of this element: analyse a separate copy
@@ -576,10 +577,36 @@ func mangle(c context, templateName string) string {
 	if c.element.name != "" {
 		s += "_" + c.element.String()
 	}
+	// Everything else that the sanitization of an action in the called template can depend
+	// on is part of the name as well.
+	if len(c.attr.names) > 0 {
+		s += "_attrNames(" + strings.Join(sortedCopy(c.attr.names), ",") + ")"
+	}
+	if len(c.element.names) > 0 {
+		s += "_elementNames(" + strings.Join(sortedCopy(c.element.names), ",") + ")"
+	}
+	if c.element.partial {
+		s += "_elementNameUnfinished"
+	}
+	if c.element.continued {
+		s += "_elementNameContinued"
+	}
+	if c.linkRel != "" {
+		s += "_rel(" + strings.TrimSpace(c.linkRel) + ")"
+	}
+	if c.scriptType != "" {
+		s += "_type(" + c.scriptType + ")"
+	}
 	if c.state == stateAttr {
 		s += "_" + attributeValueClass(c)
 	}
 	return s
+}
+
+func sortedCopy(names []string) []string {
+	ret := append([]string(nil), names...)
+	sort.Strings(ret)
+	return ret
 }
 
 // escapeTree escapes the named template starting in the given context as
@@ -587,6 +614,12 @@ func mangle(c context, templateName string) string {
 func (e *escaper) escapeTree(c context, node parse.Node, name string, line int) (context, string) {
 	// Mangle the template name with the input context to produce a reliable
 	// identifier.
+	if err := validateTemplateCallContext(c); err != nil {
+		return context{
+			state: stateError,
+			err:   errorf(ErrBadHTML, node, line, "cannot call template %q: %s", name, err),
+		}, name
+	}
 	dname := mangle(c, name)
 	e.called[dname] = true
 	if out, ok := e.output[dname]; ok {
